@@ -284,6 +284,11 @@ pub fn run_and_judge(ctx: &CaseCtx, l: &mut Local) {
         l.count(if full.exhausted { "skipped_model_step_or_depth_limit" } else { "skipped_not_well_founded" });
         return;
     }
+    if full.steps > 250_000 {
+        // exponential backtracking on this input (same in pest and in the code under test): not worth the time
+        l.count("skipped_expensive_case");
+        return;
+    }
     let mut budget = full.steps.saturating_mul(1000).saturating_add(1_000_000);
     let mut groups = ctx.cfg.groups;
     if groups & crate::run::grp::PAIRS != 0 && !(ctx.case.pre.is_empty() && ctx.case.post.is_empty()) {
@@ -968,6 +973,29 @@ fn c10(ctx: &CaseCtx, obs: &CaseObs, full: &Outcome, exp: Option<&Expect>, l: &m
     } else if let Res::Err(e) = &obs.s.check {
         check_err("try_check", e, 0, l);
     }
+    // sub-input forms: the location must lie inside the given range
+    for (form, f, lo, hi, parent) in [
+        ("Position", &obs.pos, ctx.case.pre.len(), ctx.case.pre.len() + s.len(), format!("{}{}", ctx.case.pre, s)),
+        ("Span", &obs.span, ctx.case.pre.len(), ctx.case.pre.len() + s.len(), format!("{}{}{}", ctx.case.pre, s, ctx.case.post)),
+    ] {
+        if let Some(f) = f {
+            for (api, e) in [("try_parse_partial", f.parse_partial.err()), ("try_check_partial", f.check_partial.err()), ("try_parse", f.parse.err()), ("try_check", f.check.err())] {
+                if let Some(e) = e {
+                    l.count("sub_input_error_reports_checked");
+                    if !(e.pos >= lo && e.pos <= hi && parent.is_char_boundary(e.pos)) {
+                        l.violation(
+                            "unclassified/C10/location-outside-sub-input",
+                            format!("{} on {}: error location {} is outside the given input {}..{}", api, form, e.pos, lo, hi),
+                            ctx.witness(json!({"api": api, "form": form, "location": e.pos, "range": [lo, hi]})),
+                        );
+                    }
+                    if !e.render_ok {
+                        l.violation("unclassified/C10/render-panicked", format!("{} on {}: rendering the error panicked", api, form), ctx.witness(json!({"api": api, "form": form})));
+                    }
+                }
+            }
+        }
+    }
     // same report every time
     if let Some((same, _, _)) = obs.s_again_equal {
         if obs.s.parse_partial.is_err() && !same {
@@ -1029,7 +1057,22 @@ fn c10(ctx: &CaseCtx, obs: &CaseObs, full: &Outcome, exp: Option<&Expect>, l: &m
     l.count_n("hook_attempts_seen", w.hooks.trace.len() as u64);
     l.count_n("hook_attempts_not_in_model_trace", unexplained);
     if unexplained > 0 {
-        l.count("truthfulness_inconclusive_execution_diverged_from_model");
+        // the real run made tracked attempts the reference never made. A known root cause explains
+        // that only if its emulation contains every one of them (and ends where the real run ended);
+        // otherwise the tracker is not telling the truth about what was tried.
+        let explained = emulations(ctx).into_iter().any(|e| {
+            let o = run_model(ctx, &e.opts);
+            !o.exhausted && Some(o.end) == pe && w.hooks.trace.iter().all(|(rule, start, ok, _)| o.trace.iter().any(|a| a.rule == *rule && a.start == *start && a.ok == *ok))
+        });
+        if explained {
+            l.count("truthfulness_inconclusive_known_divergence");
+        } else if let Some((rule, start, ok, _)) = w.hooks.trace.iter().find(|(rule, start, ok, _)| !full.trace.iter().any(|a| a.rule == *rule && a.start == *start && a.ok == *ok)) {
+            l.violation(
+                "unclassified/C10/tracked-attempt-not-in-reference-trace",
+                format!("the tracker recorded an attempt of {} at {} (matched: {}) that the reference interpreter never makes", rule, start, ok),
+                ctx.witness(json!({"rule": rule, "position": start, "matched": ok})),
+            );
+        }
         return;
     }
     let pos = w.tracker_pos;
@@ -1431,6 +1474,15 @@ fn classify_variant(ctx: &CaseCtx, label: &str, got: &Res<NodeObs>) -> String {
             });
             if has_counted && !o.exhausted && Some(o.end) == typed_end(got) {
                 return "C20/known/optimizer-off-repetition-stops-before-trailing-skip".into();
+            }
+            if has_counted {
+                // together with another known root cause (which the default build shows on this case too)
+                for e in emulations(ctx) {
+                    let o = refpeg::run(&raw, ctx.rule.name, &ctx.case.s, 0, ctx.case.s.len(), &e.opts);
+                    if !o.exhausted && Some(o.end) == typed_end(got) {
+                        return format!("C20/known/optimizer-off-repetition-stops-before-trailing-skip+{}", e.name);
+                    }
+                }
             }
         }
     }
